@@ -51,3 +51,32 @@ Fixpoint false_idx_from (n : nat) (l : list bool) : list nat :=
   | b :: r => (if b then [] else [n]) ++ false_idx_from (S n) r
   end.
 Definition false_idx := false_idx_from 0.
+
+(* |a/b - c/d| <= (tn/td) * |c/d|  for b, d, td > 0: float outputs of the implementation
+   (passed exactly as dyadic rationals a/b) against the model's exact rational c/d *)
+Definition qclose (a b c d tn td : Z) : bool :=
+  Z.abs (a * d - c * b) * td <=? tn * Z.abs c * b.
+
+Definition zip_with {A B C} (f : A -> B -> C) := fix zw (a : list A) (b : list B) : list C :=
+  match a, b with x :: a', y :: b' => f x y :: zw a' b' | _, _ => [] end.
+
+Fixpoint zrange (t : Z) (n : nat) : list Z :=
+  match n with O => [] | S n' => t :: zrange (t + 1) n' end.
+
+Lemma zrange_S t n : zrange t (S n) = t :: zrange (t + 1) n.
+Proof. reflexivity. Qed.
+
+Lemma zrange_in : forall n t x, In x (zrange t n) <-> t <= x < t + Z.of_nat n.
+Proof.
+  induction n as [|n IH]; intros t x; split; intro H.
+  - contradiction.
+  - cbn in H. lia.
+  - destruct H as [<-|H]; [lia|]. apply IH in H. lia.
+  - destruct (Z.eq_dec x t) as [->|Hne]; [left; reflexivity|]. right. apply IH. lia.
+Qed.
+
+Lemma zrange_NoDup : forall n t, NoDup (zrange t n).
+Proof.
+  induction n as [|n IH]; intros t; [constructor|].
+  constructor; [|apply IH]. intro H. apply zrange_in in H. lia.
+Qed.
